@@ -1,12 +1,13 @@
 SPECIFICATION Spec
 CONSTANTS
   MaxLen = 7
-  MaxClock = 3
+  MaxClock = 2
   Rings <- MCRings
   MaxB = 2
   MaxJ = 1
   Strict = TRUE
   JumboInside = TRUE
+  ExportUnspecLen = 4
   Variant = "code"
 INVARIANTS Refinement IdempotentInv RunAgrees Tight AfterSort Lemmas RegionAgree RingInv
 
